@@ -434,3 +434,30 @@ def parse_snippets(reqs):
     """Ask the syn front-end to parse Rust snippets: reqs = [{"as": "file"|"expr"|"stmts"|"pat"|"type", "src": str}]."""
     out = subprocess.run([ASTDUMP, "--parse"], input=json.dumps(reqs), capture_output=True, text=True, check=True).stdout
     return json.loads(out)
+
+
+def local_defs(fi):
+    """{name: defining expression (whitespace-free)} for single-assignment, immutable `let name = <simple expr>;` locals of fn fi
+    (hoisted sub-expressions). Used to read `let is_from = ctx.kind.is_from(); .. is_from ..` as the expression itself."""
+    defs, counts = {}, {}
+    for n in walk(fi.body):
+        if n["k"] == "Let" and n.get("init") is not None:
+            p = n["pat"]
+            while p["k"] in ("PType",):
+                p = p["pat"]
+            if p["k"] == "PIdent" and not p.get("mut"):
+                counts[p["name"]] = counts.get(p["name"], 0) + 1
+                if n["init"]["k"] not in ("Closure", "Match", "If", "Block", "Macro"):
+                    defs[p["name"]] = render(n["init"]).replace(" ", "")
+    return {k: v for k, v in defs.items() if counts.get(k) == 1 and len(v) < 140}
+
+
+def subst_locals(text, defs, rounds=3):
+    """Replace bare occurrences of the locals in `defs` inside the whitespace-free expression text."""
+    import re as _re
+    for _ in range(rounds):
+        t2 = _re.sub(r"(?<![\w.])([a-z_]\w*)(?![\w(!])", lambda m: defs.get(m.group(1), m.group(1)), text)
+        if t2 == text:
+            break
+        text = t2
+    return text
